@@ -27,9 +27,11 @@
     lemma taken as a hypothesis (`Removal.AbsStepOK`).  `C10_removal`: the final statement.
 
   Hypotheses of `C10_removal` beyond the ones in the property text:
-    - TSLACK only inside `SlackOK m` (FS links only, consistent link lists, acyclic): outside it
-      the backward pass tests `lft < 0` for "not yet set", which is not shift invariant unless
-      every value it stores is ≥ 0 — not proved for mixed link kinds (no counterexample known);
+    - TSLACK only inside `SlackOK m` (FS links only, consistent link lists, acyclic).  This is
+      weakened to "consistent link lists, acyclic, any link kinds" in PDesy/Props/C10Slack.lean
+      (`C10_removal_tslack_general`), since the backward pass records the tasks it has set
+      (`calculated_task_set`) instead of testing `lft < 0` for "not yet set" — with that test the
+      statement was false for mixed link kinds (history in C10Slack.lean);
     - `CompNoAuto m` (no component lists an automatic task): the form in which "no
       component-bound automatic task" is used;
     - `WF m`, `WorkOK m`: index / sign well-formedness;
